@@ -11,7 +11,7 @@ PROPERTY = "C06"
 LEVEL = "exploration"
 RULE = (
     "roundtrip (enumeration): network x version 0..16 x every allowed program length (v0: 20,32; else 2..40) x content "
-    "{all-zero, all-ones, single-bit (every bit for len<=5, boundary bits otherwise; every bit in thorough), hash-derived "
+    "{all-zero, all-ones, single-bit (every bit for len<=5 and for v0, 5-bit-group boundary bits otherwise; every bit in thorough), hash-derived "
     "pseudo-random}; encoders compared with the BIP173/350 reference encoder, decoder/validity/predicates run on the "
     "reference address in lower and upper case. accept-set-enum: every 1-substitution over all 256 byte values on three "
     "short addresses and every 2-substitution over the 32-char charset + {'1','b','i','o','B',' ',0x80} on a 14-char address. "
@@ -52,10 +52,11 @@ REASON_CLASS = {
 
 
 def _lib():
+    """The public observation points named by the property: bits.<fn> re-exports and bits.base58."""
+    import bits
     import bits.base58
-    import bits.utils as U
 
-    return U, bits.base58
+    return bits, bits.base58
 
 
 # ------------------------------------------------------------------ classification helpers
@@ -70,7 +71,7 @@ def valid_class(triple):
     _, v, prog = triple
     if not any(prog):
         return "all-zero-program"
-    return ("v0" if v == 0 else "v1+") + "/" + lenclass(len(prog))
+    return "v0" if v == 0 else "v1+"
 
 
 def struct_class(s: bytes, reason: str) -> str:
@@ -521,7 +522,7 @@ def targets(tier):
             "accept-set",
             check_string,
             strategy=lambda tier: accept_cases(),
-            budget={"quick": 20000, "thorough": 1000000},
+            budget={"quick": 20000, "thorough": 600000},
             required=[
                 "expect-accept", "expect-reject", "nt:valid", "nt:valid-uppercase", "nt:mixed-case", "nt:wrong-const",
                 "nt:nonzero-pad", "nt:overlong-pad", "nt:bad-version-char", "nt:non-alphabet-first-data-char",
@@ -534,7 +535,7 @@ def targets(tier):
             "totality",
             check_string,
             strategy=lambda tier: totality_cases(),
-            budget={"quick": 16000, "thorough": 800000},
+            budget={"quick": 16000, "thorough": 400000},
             required=[
                 "expect-accept", "expect-reject", "why:char-out-of-range", "why:no-separator", "why:empty-hrp",
                 "why:data-part-shorter-than-checksum", "nt:non-alphabet-first-data-char", "nt:version-and-checksum-only",
